@@ -3541,8 +3541,8 @@ def update_statements_for_language(language):
     language : str
         "c" or "c++"
     """
-    statements.update_for_language(py_statements, language)
-    statements.update_stmt_tree(py_statements, py_tree, default_stmts)
+    stmts = statements.update_for_language(py_statements, language)
+    statements.update_stmt_tree(stmts, py_tree, default_stmts)
     global default_scope
     default_scope = statements.default_scopes["py"]
 
